@@ -35,6 +35,8 @@ def coq_run(ctx, prefix, check, items, what, per=200):
         ctx.discharged += 1
         dis += [chunk[b] for b in badidx]
     for (txt, replay, sig, bad) in dis[:4]:
+        if bad:
+            continue     # already reported with this input as a failure of the property itself
         ctx.broken.append('correspondence C18 model<->impl differs on %s %s' % (what, sig))
         ctx.report('tie:%s:%s' % (what, sig), 'model and implementation disagree on %s %s%s' % (
             what, sig, (': ' + bad) if bad else ' (reference semantics still met on this input)'),
